@@ -526,6 +526,22 @@ def rule_r7(ctx) -> RuleResult:
                            "alias comes back under another name".format(tainted[0].lineno), r.lineno))
         else:
             rr.ok(X.PARSERFN, unparse(r)[:60] + " uses the name as passed in", {"return": unparse(r)[:60]})
+    # tests of the name against a canonical function name need the canonical name: they come after the
+    # alias mapping (a switch such as expand_invoke must also cover `{{#invoque:...}}`)
+    alias_assigns = [a for a in assigns if "parser_function_aliases" in unparse(a.value)]
+    if alias_assigns:
+        first_alias = min(a.lineno for a in alias_assigns)
+        for c in walk_no_nested(fn):
+            if isinstance(c, ast.Compare) and isinstance(c.left, ast.Name) and c.left.id == name_param and len(c.comparators) == 1 \
+                    and isinstance(c.comparators[0], ast.Constant) and isinstance(c.comparators[0].value, str) \
+                    and c.comparators[0].value.startswith("#"):
+                if c.lineno < first_alias:
+                    rr.bad(Finding("C13.R7", X.CORE, X.PARSERFN, unparse(c),
+                                   "the function name is compared with {!r} before localized aliases are mapped (line {}): a call written with an "
+                                   "alias of that function escapes the switch this test implements".format(c.comparators[0].value, first_alias),
+                                   c.lineno))
+                else:
+                    rr.ok(X.PARSERFN, unparse(c) + " after alias mapping", {"test": unparse(c)})
     # producers of the name at the call sites
     cg = CallGraph(ctx.index)
     rec = ctx.fn(X.RECURSE)
@@ -555,5 +571,121 @@ def rule_r7(ctx) -> RuleResult:
     return rr
 
 
+class _ExpandOnce(Flow):
+    """state = (frozenset((var, origin)), frozenset(expanded origins)).  An *origin* names one piece of
+    raw (unexpanded) argument text; variables assigned from one another share it."""
+
+    def __init__(self, rr, relfile, qual, rule):
+        self.rr, self.relfile, self.qual, self.rule = rr, relfile, qual, rule
+
+    @staticmethod
+    def _key(e):
+        if isinstance(e, ast.Name):
+            return e.id
+        if isinstance(e, ast.Subscript) and isinstance(e.value, ast.Name) and isinstance(e.slice, ast.Constant):
+            return "{}[{}]".format(e.value.id, e.slice.value)
+        return None
+
+    def _rebind(self, binds, expanded, var, origin):
+        """bind `var` to a fresh `origin`; variables still aliasing the previous text keep its status"""
+        binds = dict(binds)
+        prev = (origin, "prev")
+        for v, o in list(binds.items()):
+            if o == origin and v != var:
+                binds[v] = prev
+        expanded = set(expanded)
+        if origin in expanded:
+            expanded.discard(origin)
+            if any(o == prev for o in binds.values()):
+                expanded.add(prev)
+        if origin is None:
+            binds.pop(var, None)
+        else:
+            binds[var] = origin
+        return binds, expanded
+
+    def _expansions(self, node, binds, expanded, where):
+        calls = [c for c in ast.walk(node) if isinstance(c, ast.Call) and isinstance(c.func, ast.Name) and c.func.id == "expander" and c.args]
+        calls.sort(key=lambda c: (c.end_lineno, c.end_col_offset))
+        for c in calls:
+            k = self._key(c.args[0])
+            if k is None:
+                continue
+            o = binds.get(k, k if "[" in k else None)
+            if o is None:
+                continue
+            if o in expanded:
+                self.rr.bad(Finding(self.rule, self.relfile, self.qual, unparse(c)[:60],
+                                    "this argument text has already been expanded on the same path (line {}): templates inside it are expanded "
+                                    "twice, so template_fn/post_template_fn run twice for one call on the page".format(where.lineno), where.lineno))
+            expanded.add(o)
+        return expanded
+
+    def transfer(self, st, state):
+        binds, expanded = dict(state[0]), set(state[1])
+        expanded = self._expansions(st, binds, expanded, st)
+        if isinstance(st, ast.Assign) and len(st.targets) == 1:
+            t, v = st.targets[0], st.value
+            if isinstance(t, ast.Name):
+                k = self._key(v)
+                if k is not None:
+                    o = binds.get(k, k if "[" in k else None)
+                    b2 = dict(binds)
+                    if o is None:
+                        b2.pop(t.id, None)
+                    else:
+                        b2[t.id] = o
+                    binds = b2
+                else:
+                    binds, expanded = self._rebind(binds, expanded, t.id, None)
+            elif isinstance(t, (ast.Tuple, ast.List)):
+                for el in t.elts:
+                    if isinstance(el, ast.Name):
+                        binds, expanded = self._rebind(binds, expanded, el.id, "{}@{}".format(el.id, st.lineno))
+        return [(frozenset(binds.items()), frozenset(expanded))]
+
+    def transfer_expr(self, node, state):
+        if node is None:
+            return [state]
+        binds, expanded = dict(state[0]), set(state[1])
+        expanded = self._expansions(node, binds, expanded, node)
+        return [(frozenset(binds.items()), frozenset(expanded))]
+
+    def for_target(self, node, state):
+        binds, expanded = dict(state[0]), set(state[1])
+        if isinstance(node.target, ast.Name):
+            binds, expanded = self._rebind(binds, expanded, node.target.id, "{}@{}".format(node.target.id, node.lineno))
+        return [(frozenset(binds.items()), frozenset(expanded))]
+
+
+def expand_once(ctx, rule: str) -> RuleResult:
+    """Parser functions receive their arguments unexpanded and expand them through the `expander`
+    callback.  On no path does a registered parser function expand the same piece of argument text
+    twice: templates inside it would be expanded twice, and the hooks would run twice for one call."""
+    from ..core.callgraph import CallGraph
+
+    rr = RuleResult(rule, "a parser function expands each piece of argument text at most once per path", min_instances=40)
+    cg = CallGraph(ctx.index)
+    for dotted in sorted(cg.registered_parser_functions):
+        if not ctx.index.has_func(dotted):
+            continue
+        fn = ctx.index.func(dotted)
+        if not any(isinstance(c, ast.Call) and isinstance(c.func, ast.Name) and c.func.id == "expander" for c in walk_no_nested(fn)):
+            continue
+        before = len(rr.findings)
+        w = _ExpandOnce(rr, ctx.index.mod(dotted.split(".")[0]).relpath, dotted, rule)
+        try:
+            w.run_function(fn, [(frozenset(), frozenset())])
+        except AnalysisError:
+            raise
+        if len(rr.findings) == before:
+            rr.ok(dotted, "no argument text expanded twice", {"fn": dotted})
+    return rr
+
+
+def rule_r8(ctx) -> RuleResult:
+    return expand_once(ctx, "C13.R8")
+
+
 def run(ctx) -> list:
-    return [rule_r1(ctx), rule_r2(ctx), rule_r3(ctx), rule_r4(ctx), rule_r5(ctx), rule_r6(ctx), rule_r7(ctx)]
+    return [rule_r1(ctx), rule_r2(ctx), rule_r3(ctx), rule_r4(ctx), rule_r5(ctx), rule_r6(ctx), rule_r7(ctx), rule_r8(ctx)]
